@@ -5,4 +5,4 @@ Import ListNotations.
 Definition smPSKMinLen : nat := 4%nat.
 Definition smSaltLen : nat := 8%nat.
 Definition smKeyLen : nat := 32%nat.
-Definition udpBufferSize : nat := 1508%nat.
+Definition udpBufferSize : nat := 2048%nat.
